@@ -172,7 +172,8 @@ class LokiStringifyMapper(StringifyMapper):
         # quotients for the numerator
         kwargs['force_parens_around'] = (pmbl.FloorDiv, pmbl.Remainder)
         numerator = self.rec_with_force_parens_around(expr.numerator, PREC_PRODUCT, *args, **kwargs)
-        kwargs['force_parens_around'] = self.multiplicative_primitives
+        # The denominator always needs parenthesis around products and quotients: a / (b*c) is not a / b*c
+        kwargs['force_parens_around'] = (pmbl.Product, pmbl.Quotient, pmbl.FloorDiv, pmbl.Remainder)
         denominator = self.rec_with_force_parens_around(expr.denominator, PREC_PRODUCT, *args, **kwargs)
         return self.parenthesize_if_needed(self.format('%s / %s', numerator, denominator),
                                            enclosing_prec, PREC_PRODUCT)
